@@ -242,6 +242,11 @@ type World struct {
 	DiskSlowFor func(c DiskCall) time.Duration
 	Log         func(format string, a ...interface{})
 	LockJitter  time.Duration // upper bound of the simulated delay before each lock request (lock.go: jitter)
+	// SelectJitter: upper bound (nanoseconds of simulated time) of a keyed delay AFTER a goroutine has received from
+	// a channel in a rewritten select (select.go). With StrictLocks a goroutine that asks for a lock waits for
+	// the next quiescent point, i.e. everybody else runs first; this delay explores the other order - the
+	// receiver of a message dawdles while the sender goes on (takes its lock, decodes the next frame, ...).
+	SelectJitter int
 	StrictLocks bool          // every lock acquisition of a simulated goroutine is arbitrated at quiescence (lock.go)
 	KeysPerm    bool          // permute map iteration order (seeded) instead of plain sorted order
 
